@@ -1,22 +1,29 @@
 #!/bin/bash
-# usage: seedall.sh [seed-dir ...]   — for every seeded change: scratch worktree of /repo at the seed's base commit
-# (meta.json "base", default HEAD), apply patch.diff, run ./check <property> against it (DV_REPO), print the verdict.
-# Development helper (not a registered check).  Worktrees are removed afterwards.
+# usage: seedall.sh [-j N] [seed-dir ...]   — for every seeded change: scratch worktree of /repo at the seed's base
+# commit (meta.json "base", default HEAD), apply patch.diff, run ./check <property> against it (DV_REPO, own
+# build directory DV_BUILD), print the verdict.  meta.json "also" = further properties the change violates.
+# Development helper (not a registered check).  Worktrees and build directories are removed afterwards.
 cd "$(dirname "$0")"
-SEEDS=${@:-$(ls seeded)}
-for s in $SEEDS; do
-  d=seeded/$s
-  P=$(python3 -c "import json;print(json.load(open('$d/meta.json'))['property'])")
+J=1; if [ "$1" = "-j" ]; then J=$2; shift 2; fi
+one() {
+  s=$1; d=seeded/$s
+  PS=$(python3 -c "import json;m=json.load(open('$d/meta.json'));print(' '.join([m['property']]+m.get('also',[])))")
   BASE=$(python3 -c "import json;print(json.load(open('$d/meta.json')).get('base','HEAD'))")
   W=/tmp/seedwt_$s
   git -C /repo worktree remove --force $W >/dev/null 2>&1
-  git -C /repo worktree add --detach $W $BASE >/dev/null 2>&1 || { echo "$s: cannot create worktree at $BASE"; continue; }
+  git -C /repo worktree add --detach $W $BASE >/dev/null 2>&1 || { echo "$s: cannot create worktree at $BASE"; return; }
   if git -C $W apply $PWD/$d/patch.diff 2>/dev/null; then
-    out=$(DV_REPO=$W ./check $P 2>&1)
-    v=$(echo "$out" | grep -c '^VIOLATION'); u=$(echo "$out" | grep -c '^UNDECIDED')
-    echo "$s property=$P base=$BASE violations=$v undecided=$u :: $(echo "$out" | grep '^VIOLATION' | sed 's/.*obligation=//' | tr '\n' ' ' | cut -c1-300)"
+    for P in $PS; do
+      out=$(DV_REPO=$W DV_BUILD=$PWD/build/seed_$s ./check $P 2>&1)
+      v=$(echo "$out" | grep -c '^VIOLATION'); u=$(echo "$out" | grep -c '^UNDECIDED')
+      echo "$s property=$P base=${BASE:0:7} violations=$v undecided=$u :: $(echo "$out" | grep '^VIOLATION' | sed 's/.*obligation=//' | tr '\n' ' ' | cut -c1-300) $(echo "$out" | grep '^UNDECIDED' | head -1 | cut -c1-300)"
+    done
   else
-    echo "$s property=$P base=$BASE: patch does not apply"
+    echo "$s: patch does not apply at $BASE"
   fi
   git -C /repo worktree remove --force $W >/dev/null 2>&1
-done
+  rm -rf build/seed_$s
+}
+export -f one
+SEEDS=${@:-$(ls seeded)}
+echo $SEEDS | tr ' ' '\n' | xargs -P $J -I{} bash -c 'one {}'
